@@ -65,6 +65,25 @@ Theorem C14_cumulative_columns :
 Proof. intros. apply cumulative_table_spec. assumption. Qed.
 Print Assumptions C14_cumulative_columns.
 
+(* Top level of cumulative_comparisons_to_be_scored_from_blocking_rules_data: one row per rule, the
+   cartesian column is calculate_cartesian of the table sizes (exact number of admissible pairs by
+   C14_cartesian_exact), the row counts are the first-true-rule counts, the other two columns the
+   running sums.  (max_rows_limit is not modelled: calls in which the limit is not hit.) *)
+Theorem C14_cumulative_table_top_level :
+  forall (rec : Type) lt sizes (adm : rec -> rec -> bool) rules L R tab i d,
+    cumulative_comparisons_data lt sizes adm rules L R = Some tab ->
+    rules <> [] -> (i < length rules)%nat ->
+    exists cart, cartesian lt sizes = Some cart /\
+      let counts := row_counts (length rules) (block adm rules L R) in
+      let r := nth i tab d in
+      row_count r = countZ (fun p => adm (fst p) (snd p) && owner_is rec 0 rules i (fst p) (snd p)) (cross L R) /\
+      cumulative_rows r = sumZ (firstn (S i) counts) /\
+      start r = sumZ (firstn i counts) /\
+      cartesian_count r = cart /\
+      length tab = length rules.
+Proof. intros. eapply cumulative_comparisons_data_spec; eassumption. Qed.
+Print Assumptions C14_cumulative_table_top_level.
+
 Theorem C14_cartesian_exact :
   forall (A : Type) (tables : list (list A)),
     (forall l, tables = [l] ->
@@ -118,4 +137,13 @@ Example C14_example_cumulative :
       (cumulative_comparisons adm [r0; r1] 3 [0; 1; 2]%nat [0; 1; 2]%nat)
   = [(1, 1, 0, 3); (2, 3, 1, 3)]
   /\ post_filter_count adm r1 [0; 1; 2]%nat [0; 1; 2]%nat = 2.
+Proof. vm_compute. split; reflexivity. Qed.
+Example C14_example_top_level :
+  let adm := fun l r : nat => Nat.ltb l r in
+  let r0 := fun l r : nat => if Nat.eqb l 0 then U else of_bool (Nat.eqb (l + r) 3) in
+  let r1 := fun l r : nat => of_bool (Nat.eqb l 0) in
+  option_map (map (fun c => (row_count c, cumulative_rows c, start c, cartesian_count c)))
+             (cumulative_comparisons_data CDedupe [3] adm [r0; r1] [0; 1; 2]%nat [0; 1; 2]%nat)
+  = Some [(1, 1, 0, 3); (2, 3, 1, 3)]
+  /\ cumulative_comparisons_data CDedupe [3; 4] adm [r0; r1] [0; 1; 2]%nat [0; 1; 2]%nat = None.
 Proof. vm_compute. split; reflexivity. Qed.
